@@ -39,6 +39,26 @@ var T2Vals = []string{
 func t2new(typ, arg string) string { return "(new " + sx.Str(typ).Atom + " " + sx.Str(arg).Atom + ")" }
 func t2ty(text string) string      { return "(ty " + sx.Str(text).Atom + ")" }
 
+// T2Params: parameterizations of Lat::P by types (seeded change C01-s8 swapped the operands of the type-against-type test of
+// objectTypeExtension.testAssignable); T2ParamVals: an instance of each (and of the base type: no parameter bound).
+var T2ParamArgs = []string{"Integer", "Numeric", "Integer[0, 9]", "String", "Scalar"}
+
+func T2Params() []string {
+	r := []string{"Lat::P"}
+	for _, a := range T2ParamArgs {
+		r = append(r, "Lat::P["+a+"]")
+	}
+	return r
+}
+
+func T2ParamVals() []string {
+	var r []string
+	for _, a := range T2ParamArgs {
+		r = append(r, "(newp "+sx.Str(a).Atom+")")
+	}
+	return r
+}
+
 // T2Text hex-encodes a type text for an op line.
 func T2Text(s string) string { return sx.Str(s).Atom }
 
@@ -69,6 +89,18 @@ func (env *Env) t2Val(e sx.Sexp) (v px.Value, term *Val, err error) {
 			return nil, nil, err
 		}
 		if f := Safely(func() { v = px.New(env.C, t, types.WrapString(string(arg))) }); f != nil {
+			return nil, nil, fmt.Errorf("%v", f)
+		}
+		return v, nil, nil
+	case "newp": // (newp xTEXT) = px.New(Lat::P, 1, TEXT as a type): an instance of the parameterized type Lat::P[TEXT]
+		if len(e.Args()) != 1 {
+			return nil, nil, fmt.Errorf("bad value %s", e)
+		}
+		t, err := env.t2Type(e.Args()[0])
+		if err != nil {
+			return nil, nil, err
+		}
+		if f := Safely(func() { v = px.New(env.C, env.C.ParseType("Lat::P"), types.WrapInteger(1), t) }); f != nil {
 			return nil, nil, fmt.Errorf("%v", f)
 		}
 		return v, nil, nil
@@ -254,6 +286,13 @@ func GenTier2(emit func(string), r *rand.Rand, prop string) {
 	val := func() string { return T2Vals[r.Intn(len(T2Vals))] }
 	switch prop {
 	case "C01":
+		for _, a := range T2Params() { // the whole family of the parameterized Object type, every instance
+			for _, b := range T2Params() {
+				for _, v := range T2ParamVals() {
+					emit("@t2-sound " + T2Text(a) + " " + T2Text(b) + " " + v)
+				}
+			}
+		}
 		for i := 0; i < 450; i++ {
 			emit("@t2-sound " + ty() + " " + ty() + " " + val())
 		}
@@ -264,6 +303,14 @@ func GenTier2(emit func(string), r *rand.Rand, prop string) {
 	case "C03":
 		for _, t := range T2Types {
 			emit("@t2-refl " + T2Text(t))
+		}
+		for _, a := range T2Params() {
+			emit("@t2-refl " + T2Text(a))
+			for _, b := range T2Params() {
+				for _, cc := range T2Params() {
+					emit("@t2-trans " + T2Text(a) + " " + T2Text(b) + " " + T2Text(cc))
+				}
+			}
 		}
 		for i := 0; i < 400; i++ {
 			emit("@t2-trans " + ty() + " " + ty() + " " + ty())
